@@ -21,9 +21,9 @@ func init() {
 			"values derived from the embedded ClassStatement's fields by index/selection/assignment are shared",
 		},
 		Rules: []RuleDef{
-			{Name: "C19-SHARED", Floor: 2, Doc: "methods of ClassGeneric never mutate objects reachable from the shared class declaration", Run: c19Run},
-			{Name: "C19-MAP", Floor: 2, Doc: "Clone stores the map it is given (not the receiver's) and each caller passes a map freshly built in that call", Run: nop},
-			{Name: "C19-SITE", Floor: 100, Doc: "evaluation methods of AST nodes never store a property or type declaration taken from a value into the node: a store site shared by several instantiations re-reads the declaration from the object each time", Run: c19Site},
+			{Name: "C19-SHARED", Floor: 1, Doc: "methods of ClassGeneric never mutate objects reachable from the shared class declaration", Run: c19Run},
+			{Name: "C19-MAP", Floor: 1, Doc: "Clone stores the map it is given (not the receiver's) and each caller passes a map freshly built in that call", Run: nop},
+			{Name: "C19-SITE", Floor: 79, Doc: "evaluation methods of AST nodes never store a property or type declaration taken from a value into the node: a store site shared by several instantiations re-reads the declaration from the object each time", Run: c19Site},
 			{Name: "C19-PRED", Floor: 1, Doc: "data.Generic.Is is not a constant predicate", Run: nop},
 		},
 	})
